@@ -143,7 +143,30 @@ let () =
          let may_remove = starts !call "CALL restrict" && starts !res "RES rc=0" in
          let dms = Stdlib.List.filter_map (fun (g, x) -> if x.x_dm then Some g else None) (extras_of b) in
          let vs = hist_check b.pd cur.pd may_remove @ (if may_remove then dm_vanish_check b.pd cur.pd dms else []) @ (if starts !call "CALL ud" then [] else ud_check (uds_of (extras_of b)) (uds_of (extras_of cur))) in
-         if vs = [] then print_endline "hist ok" else print_endline ("hist VIOLATION " ^ show_viols vs)
+         (* identity attributes (name, subtype, infos) of every object present before and after, by gp_index:
+            only the call's own target may change them (info/subtype calls; the object a Group was merged into) *)
+         let hc = kv_tbl (split_on ' ' !call) and hr = kv_tbl (split_on ' ' !res) in
+         let target =
+           if starts !call "CALL info_" || starts !call "CALL subtype" then
+             (match int_of_string_opt (field hc "obj") with Some id -> gp_of_id b id | None -> None)
+           else if starts !call "CALL group" then (match Stdlib.Hashtbl.find_opt hr "gp" with Some v -> Some (n_of_dec v) | None -> None)
+           else None in
+         let exb = extras_of b in
+         let ident = Stdlib.List.filter_map (fun (g, xa) ->
+           if Some g = target then None else
+           match Stdlib.List.assoc_opt g exb with
+           | Some xb when xb.x_name <> xa.x_name || xb.x_subtype <> xa.x_subtype || xb.x_infos <> xa.x_infos ->
+               Some ("identity-attrs-changed@" ^ dec_of_n g)
+           | _ -> None) (extras_of cur) in
+         (* Groups that vanished in a call that is not a restrict: their kinds (the defect known so far only
+            replaces a Group of strictly LARGER kind) *)
+         let vk = if may_remove then [] else Stdlib.List.filter_map (fun (o : dobj) ->
+           match o.o_gp with
+           | Some g when find_by_gp cur.pd g = None -> Some (dec_of_z o.o_group_kind)
+           | _ -> None) b.pd.t_objs in
+         let tail = (if ident = [] then "" else " " ^ Stdlib.String.concat " " ident)
+                    ^ (if vk = [] then "" else " vanished-group-kinds=" ^ Stdlib.String.concat "," vk) in
+         if vs = [] && ident = [] then print_endline "hist ok" else print_endline ("hist VIOLATION " ^ show_viols vs ^ tail)
      | _ -> print_endline "hist ok");
     print_endline (if same then "same 1" else "same 0");
     (match !prev with
